@@ -127,7 +127,7 @@ def _variants_for(name):
         out.append('ragged')
     if e.arity == 1 and e.group in ('basics', 'headers', 'selects', 'fills', 'sort', 'dedup', 'passthrough', 'accessors', 'reshape') \
             and e.name not in ('cut-index', 'validate', 'transpose', 'pivot', 'recast', 'recast-variables', 'distinct', 'distinct-count',
-                               'duplicates-nokey', 'unique-nokey', 'sort', 'melt', 'flatten', 'unflatten', 'unflatten-field'):
+                               'duplicates-nokey', 'unique-nokey', 'distinct-presorted', 'distinct-count-presorted', 'sort', 'melt', 'flatten', 'unflatten', 'unflatten-field'):
         out.append('mut')
     return out
 
